@@ -5,9 +5,11 @@
 //  * handle_reset_hard (whole): the working log of the OLD head is dropped, nothing is written for any head.
 //  * handle_reset_preserve_working_dir (whole): same commit => no effect; not backwards => nothing is written (the old log is
 //    dropped: loss, see REPORT.md); backwards => reconstruct_working_log_after_reset(target, old, no pathspecs).
-//  * handle_reset_pathspec_preserve_working_dir (whole): not backwards => no effect; otherwise HEAD's log is rewritten as the old
-//    checkpoints minus the entries of the named files (in order, emptied checkpoints dropped) followed by what the reconstruction left.
+//  * handle_reset_pathspec_preserve_working_dir (whole): target == old head (un-staging) => NO effect (REQUIRED since /repo 42fcdb81);
+//    not backwards => no effect; otherwise HEAD's log is rewritten as the old checkpoints minus the entries of the named files (in
+//    order, emptied checkpoints dropped) followed by what the reconstruction left (recorded deviation: REPORT.md finding 2b).
 //  * reconstruct_working_log_after_reset (whole): what is written, for which base commit, from which sources, merged in which order,
+//    that EVERY file with pending attribution in the old head's log is among the carried files (proved; REQUIRED since /repo 5decae7d),
 //    and that the old head's log is removed only after the new one is in place.
 //  * is_ancestor, get_files_changed_between_commits (whole): what git is asked.
 // Every effect (delete / clear / write INITIAL / append checkpoint / append rewrite event) is a stub whose PRECONDITION says when it
@@ -55,12 +57,13 @@ pub enum Action {
     Nothing,        // failed reset / nothing known about it: every note and all pending attribution stay as they are (C02)
     DropPending,    // hard: the text is gone, so the pending attribution of the old head goes, and none is written (C03)
     Carry,          // soft / mixed / keep / merge without pathspecs
-    CarryPaths,     // reset <tree-ish> -- <paths>: HEAD does not move
+    CarryPaths,     // reset <older tree-ish> -- <paths>: HEAD does not move
+    Unstage,        // reset [HEAD] -- <paths>: the target is HEAD itself; only the index changes, NO working log is touched
 }
 pub open spec fn decide(o: ResetOp) -> Action {
     if !o.ok || o.old is None || o.new is None || o.target is None { Action::Nothing }
     else if o.hard { Action::DropPending }
-    else if o.paths.len() > 0 { Action::CarryPaths }
+    else if o.paths.len() > 0 { if o.target == o.old { Action::Unstage } else { Action::CarryPaths } }
     else { Action::Carry }
 }
 /// `git merge-base --is-ancestor a d` exits 0
@@ -83,24 +86,38 @@ pub uninterp spec fn range_commits(start: Seq<char>, end: Seq<char>) -> Option<S
 pub uninterp spec fn ai_filter(commits: Seq<String>, files: Seq<String>) -> Option<Seq<String>>;  // the files the notes of these commits attribute anything in
 pub open spec fn in_files(f: Seq<char>) -> spec_fn(String) -> bool { |s: String| s@ == f }
 pub open spec fn user_sel(paths: Seq<String>) -> spec_fn(String) -> bool { |s: String| selected(paths, s@) }
-/// the files whose attribution is carried over: changed between target and old, named by the user's pathspecs if any, with AI
-/// attribution in the notes of the un-done commits
+/// the files the NOTES of the un-done commits speak about: changed between target and old, named by the user's pathspecs if any,
+/// with AI attribution in the notes of the un-done commits
 pub open spec fn carry_files(old: Seq<char>, target: Seq<char>, user: Option<Seq<String>>) -> Option<Seq<String>> {
     match (changed(target, old), range_commits(target, old)) {
         (Some(ch), Some(cs)) => ai_filter(cs, match user { Some(u) => ch.filter(user_sel(u)), None => ch }),
         _ => None,
     }
 }
-/// file f has pending (uncommitted) attribution in the working log of head
-pub uninterp spec fn pending_has(head: Seq<char>, f: Seq<char>) -> bool;
-pub open spec fn pending_within(head: Seq<char>, files: Seq<String>) -> bool {
-    forall|f: Seq<char>| #[trigger] pending_has(head, f) ==> exists|j: int| 0 <= j < files.len() && (#[trigger] files[j])@ == f
+/// the files named in the INITIAL attributions of the working log of head (as the hook finds it)
+pub uninterp spec fn log_initial_files(head: Seq<char>) -> Seq<String>;
+/// the checkpoints stored in the working log of `head`: phase 0 = before the hook touched anything, phase 1 = as the reconstruction left them
+pub uninterp spec fn log_cps_at(head: Seq<char>, phase: int) -> Seq<Checkpoint>;
+pub open spec fn has_name(v: Seq<String>, f: Seq<char>) -> bool { exists|j: int| 0 <= j < v.len() && (#[trigger] v[j])@ == f }
+pub open spec fn entry_name(cps: Seq<Checkpoint>, k: int, f: Seq<char>) -> bool {
+    exists|i: int, j: int| 0 <= i < k && i < cps.len() && 0 <= j < cps[i].entries@.len() && (#[trigger] cps[i].entries@[j]).file@ == f
 }
-/// DEVIATION (finding 1, REPORT.md): the old head's working log holds pending attribution for a file that is NOT among the carried
-/// files; reconstruct_working_log_after_reset then deletes that log without carrying it.  The contracts below hold outside this class.
-pub open spec fn dev_pending_outside(o: ResetOp) -> bool {
-    decide(o) == Action::Carry && back(o) && o.old != o.target
-    && match carry_files(o.old.unwrap(), o.target.unwrap(), None) { Some(fs) => !pending_within(o.old.unwrap(), fs), None => false }
+pub open spec fn pending_upto(head: Seq<char>, k: int, f: Seq<char>) -> bool { has_name(log_initial_files(head), f) || entry_name(log_cps_at(head, 0), k, f) }
+/// file f has pending (uncommitted) attribution in the working log of head: INITIAL attributions or an entry of a checkpoint
+pub open spec fn pending_has(head: Seq<char>, f: Seq<char>) -> bool { pending_upto(head, log_cps_at(head, 0).len() as int, f) }
+pub open spec fn pending_within(head: Seq<char>, files: Seq<String>) -> bool { forall|f: Seq<char>| #[trigger] pending_has(head, f) ==> has_name(files, f) }
+/// THE FILES WHOSE ATTRIBUTION IS CARRIED to the target's log: those of the notes first; for a plain reset (the old head's log is
+/// deleted) ALSO every file with pending attribution in the old head's log (C02: a surviving line attributed before stays attributed;
+/// was finding 1, repaired in /repo 5decae7d) - and nothing else
+pub open spec fn carried_ok(cf: Seq<String>, old: Seq<char>, target: Seq<char>, user: Option<Seq<String>>) -> bool {
+    match carry_files(old, target, user) {
+        Some(ai) => {
+            &&& cf.len() >= ai.len() && cf.take(ai.len() as int) =~= ai
+            &&& forall|j: int| ai.len() <= j < cf.len() ==> user is None && pending_has(old, (#[trigger] cf[j])@)
+            &&& user is None ==> pending_within(old, cf)
+        }
+        None => false,
+    }
 }
 /// the sources: VA of the OLD head = notes of the un-done commits (blame from old back to `stop`) with the old head's working log
 /// applied on top; VA of the target commit
@@ -141,7 +158,7 @@ pub open spec fn may_drop(o: ResetOp, sha: Seq<char>) -> bool {
 /// reconstruct_working_log_after_reset may run
 pub open spec fn recon_pre(o: ResetOp, target: Seq<char>, old: Seq<char>, user: Option<Seq<String>>) -> bool {
     &&& back(o) && o.target == Some(target) && o.old == Some(old)
-    &&& match user { None => decide(o) == Action::Carry && o.old != o.target && !dev_pending_outside(o), Some(u) => decide(o) == Action::CarryPaths && u == o.paths }
+    &&& match user { None => decide(o) == Action::Carry && o.old != o.target, Some(u) => decide(o) == Action::CarryPaths && u == o.paths }
 }
 pub open spec fn user_of(o: ResetOp) -> Option<Seq<String>> { if decide(o) == Action::CarryPaths { Some(o.paths) } else { None } }
 /// a working log may be cleared (checkpoints, blobs, INITIAL) before it is rewritten
@@ -167,8 +184,6 @@ pub uninterp spec fn paths_of(p: ParsedGitInvocation) -> Option<Seq<String>>;
 pub uninterp spec fn head_after() -> Option<Seq<char>>;
 pub uninterp spec fn resolve_after(tree_ish: Seq<char>) -> Option<Seq<char>>;
 pub uninterp spec fn range_of(r: CommitRange) -> (Seq<char>, Seq<char>);
-/// the checkpoints stored in the working log of head (none when it cannot be read)
-pub uninterp spec fn log_cps(head: Seq<char>) -> Seq<Checkpoint>;
 pub open spec fn opt_str(o: Option<String>) -> Option<Seq<char>> { match o { Some(s) => Some(s@), None => None } }
 pub open spec fn mode_flag(p: ParsedGitInvocation) -> bool {
     has_flag(p, "--hard"@) || has_flag(p, "--soft"@) || has_flag(p, "--mixed"@) || has_flag(p, "--merge"@) || has_flag(p, "--keep"@)
@@ -255,12 +270,81 @@ impl VirtualAttributions {
         ensures r matches Ok(p) ==> pathspecs matches Some(ps) && initial_of(*self, parent_sha@, commit_sha@, set_view(*ps)) == Some((p.1.files, p.1.prompts)), { unimplemented!() }
 }
 impl InitFiles { #[verifier::external_body] pub fn is_empty(&self) -> (r: bool) ensures r == files_empty(*self), { unimplemented!() } }
-/// `working_log.read_all_checkpoints().unwrap_or_default()`
-#[verifier::external_body] fn opq_read_cps(w: &PersistedWorkingLog) -> (r: Vec<Checkpoint>) ensures r@ == log_cps(wl_head(*w)), { unimplemented!() }
+
+/// `old_working_log.read_initial_attributions().files.into_keys().collect()`
+#[verifier::external_body] fn opq_initial_files(w: &PersistedWorkingLog) -> (r: Vec<String>) ensures r@ == log_initial_files(wl_head(*w)), { unimplemented!() }
+pub open spec fn entry_files(es: Seq<WorkingLogEntry>) -> Seq<String> { es.map_values(|e: WorkingLogEntry| e.file) }
+/// `pending_files.extend(checkpoint.entries.into_iter().map(|entry| entry.file))`
+#[verifier::external_body] fn opq_extend_entry_files(v: &mut Vec<String>, es: Vec<WorkingLogEntry>) ensures final(v)@ == old(v)@ + entry_files(es@), { unimplemented!() }
+/// `pending_files.sort()`: a permutation - the same names
+#[verifier::external_body] fn opq_sort_names(v: &mut Vec<String>) ensures forall|f: Seq<char>| #[trigger] has_name(final(v)@, f) <==> has_name(old(v)@, f), { unimplemented!() }
+/// `pathspecs.contains(&file)`
+#[verifier::external_body] fn opq_has_name(v: &Vec<String>, x: &String) -> (r: bool) ensures r == has_name(v@, x@), { unimplemented!() }
+
+/// v names exactly the files with INITIAL attributions or an entry in one of the first k checkpoints of head's log
+pub open spec fn collects(v: Seq<String>, head: Seq<char>, k: int) -> bool { forall|f: Seq<char>| #[trigger] has_name(v, f) <==> pending_upto(head, k, f) }
+proof fn lemma_collect_step(v0: Seq<String>, v1: Seq<String>, head: Seq<char>, k: int)
+    requires 0 <= k < log_cps_at(head, 0).len(), collects(v0, head, k), v1 == v0 + entry_files(log_cps_at(head, 0)[k].entries@),
+    ensures collects(v1, head, k + 1),
+{
+    let cps = log_cps_at(head, 0); let es = cps[k].entries@; let add = entry_files(es);
+    assert forall|f: Seq<char>| #[trigger] has_name(v1, f) <==> pending_upto(head, k + 1, f) by {
+        if has_name(v1, f) {
+            let j = choose|j: int| 0 <= j < v1.len() && (#[trigger] v1[j])@ == f;
+            if j < v0.len() {
+                assert(v1[j] == v0[j]); assert(has_name(v0, f)); assert(pending_upto(head, k, f));
+                if entry_name(cps, k, f) { let (i, jj) = choose|i: int, jj: int| 0 <= i < k && i < cps.len() && 0 <= jj < cps[i].entries@.len() && (#[trigger] cps[i].entries@[jj]).file@ == f; assert(0 <= i < k + 1 && cps[i].entries@[jj].file@ == f); }
+            } else {
+                let jj = j - v0.len(); assert(v1[j] == add[jj]); assert(add[jj] == es[jj].file);
+                assert(0 <= k < k + 1 && 0 <= jj < cps[k].entries@.len() && cps[k].entries@[jj].file@ == f);
+            }
+        }
+        if pending_upto(head, k + 1, f) {
+            if has_name(log_initial_files(head), f) { assert(pending_upto(head, k, f)); assert(has_name(v0, f)); let j = choose|j: int| 0 <= j < v0.len() && (#[trigger] v0[j])@ == f; assert(v1[j] == v0[j]); }
+            else {
+                let (i, jj) = choose|i: int, jj: int| 0 <= i < k + 1 && i < cps.len() && 0 <= jj < cps[i].entries@.len() && (#[trigger] cps[i].entries@[jj]).file@ == f;
+                if i < k { assert(entry_name(cps, k, f)); assert(has_name(v0, f)); let j = choose|j: int| 0 <= j < v0.len() && (#[trigger] v0[j])@ == f; assert(v1[j] == v0[j]); }
+                else { let j = v0.len() + jj; assert(v1[j] == add[jj]); assert(add[jj] == es[jj].file); assert(0 <= j < v1.len() && v1[j]@ == f); }
+            }
+        }
+    }
+}
+/// cf = the notes' files `ai`, then only files with pending attribution in head's log
+pub open spec fn ext_ok(cf: Seq<String>, ai: Seq<String>, head: Seq<char>) -> bool {
+    &&& cf.len() >= ai.len() && cf.take(ai.len() as int) =~= ai
+    &&& forall|j: int| ai.len() <= j < cf.len() ==> pending_has(head, (#[trigger] cf[j])@)
+}
+/// the first n names of pf are in cf
+pub open spec fn covered(cf: Seq<String>, pf: Seq<String>, n: int) -> bool { forall|i: int| 0 <= i < n && i < pf.len() ==> has_name(cf, (#[trigger] pf[i])@) }
+proof fn lemma_cover_step(cf0: Seq<String>, cf1: Seq<String>, ai: Seq<String>, pf: Seq<String>, n: int, head: Seq<char>)
+    requires 0 <= n < pf.len(), ext_ok(cf0, ai, head), covered(cf0, pf, n), pending_has(head, pf[n]@),
+        cf1 == (if has_name(cf0, pf[n]@) { cf0 } else { cf0.push(pf[n]) }),
+    ensures ext_ok(cf1, ai, head), covered(cf1, pf, n + 1),
+{
+    assert forall|i: int| 0 <= i < n + 1 && i < pf.len() implies has_name(cf1, (#[trigger] pf[i])@) by {
+        if i < n { let j = choose|j: int| 0 <= j < cf0.len() && (#[trigger] cf0[j])@ == pf[i]@; assert(cf1[j] == cf0[j]); }
+        else if has_name(cf0, pf[n]@) {} else { let j = cf0.len() as int; assert(cf1[j] == pf[n]); }
+    }
+    if !has_name(cf0, pf[n]@) {
+        assert(cf1.take(ai.len() as int) =~= cf0.take(ai.len() as int));
+        assert forall|j: int| ai.len() <= j < cf1.len() implies pending_has(head, (#[trigger] cf1[j])@) by { if j < cf0.len() { assert(cf1[j] == cf0[j]); } }
+    }
+}
+/// with every name of pf in cf, and pf naming every pending file, nothing pending is left behind
+proof fn lemma_cover_all(cf: Seq<String>, pf: Seq<String>, head: Seq<char>)
+    requires covered(cf, pf, pf.len() as int), collects(pf, head, log_cps_at(head, 0).len() as int),
+    ensures pending_within(head, cf),
+{
+    assert forall|f: Seq<char>| #[trigger] pending_has(head, f) implies has_name(cf, f) by {
+        assert(has_name(pf, f)); let i = choose|i: int| 0 <= i < pf.len() && (#[trigger] pf[i])@ == f; assert(has_name(cf, pf[i]@));
+    }
+}
 
 // ---------------------------------------------------------------- stubs: EFFECTS (the precondition is the statement)
 impl RepoStorage {
     #[verifier::external_body] pub fn working_log_for_base_commit(&self, sha: &str) -> (r: PersistedWorkingLog) ensures wl_head(r) == sha@, { unimplemented!() }
+    /// the directory of the log exists.  ASSUMED: without it nothing is pending for that head
+    #[verifier::external_body] pub fn has_working_log(&self, sha: &str) -> (r: bool) ensures !r ==> forall|f: Seq<char>| !pending_has(sha@, f), { unimplemented!() }
     /// delete a working log with nothing written in its place
     #[verifier::external_body] pub fn delete_working_log_for_base_commit(&self, sha: &str) -> (r: Result<(), GitAiError>)
         requires may_drop(op(), sha@), { unimplemented!() }
@@ -275,7 +359,7 @@ impl PersistedWorkingLog {
 /// when the new one is in place (`placed`) or there is nothing to carry, and (plain reset) nothing pending is left behind
 pub open spec fn may_delete_old(o: ResetOp, sha: Seq<char>, placed: bool, files: Seq<String>) -> bool {
     &&& back(o) && Some(sha) == o.old && (decide(o) == Action::Carry || decide(o) == Action::CarryPaths)
-    &&& Some(files) == carry_files(o.old.unwrap(), o.target.unwrap(), user_of(o))
+    &&& carried_ok(files, o.old.unwrap(), o.target.unwrap(), user_of(o))
     &&& placed || files.len() == 0
     // plain reset: nothing pending is left behind.  With pathspecs HEAD does not move: the caller has saved the other files'
     // checkpoints and rewrites HEAD's log (handle_reset_pathspec_preserve_working_dir)
@@ -290,7 +374,7 @@ pub open spec fn may_write_initial(o: ResetOp, head: Seq<char>, written: (InitFi
     // into the (just cleared) working log of the TARGET commit
     &&& cleared && Some(head) == o.target
     // for the carried files, on their working-tree text
-    &&& Some(cf) == carry_files(o.old.unwrap(), o.target.unwrap(), user_of(o)) && cf.len() > 0
+    &&& carried_ok(cf, o.old.unwrap(), o.target.unwrap(), user_of(o)) && cf.len() > 0
     &&& the_workdir() is Some && is_wt(fin, the_workdir().unwrap(), cf, cf.len() as int)
     // the attribution of the un-done commits with the old head's pending attribution on top, over the target's
     &&& carried_initial(o.old.unwrap(), o.target.unwrap(), cf, fin) == Some(written)
@@ -336,8 +420,6 @@ proof fn lemma_kept_step(out0: Seq<Checkpoint>, out1: Seq<Checkpoint>, ex: Seq<C
     assert(inp.drop_last() =~= ex.take(k));
     if c1.entries@.len() > 0 { assert(out1.last() == c1); assert(out1.drop_last() =~= out0); }
 }
-/// the checkpoints stored in the working log of `head`: phase 0 = before the hook touched anything, phase 1 = as the reconstruction left them
-pub uninterp spec fn log_cps_at(head: Seq<char>, phase: int) -> Seq<Checkpoint>;
 /// `working_log.read_all_checkpoints().unwrap_or_default()`
 #[verifier::external_body] fn opq_read_cps_at(w: &PersistedWorkingLog, Ghost(phase): Ghost<int>) -> (r: Vec<Checkpoint>) ensures r@ == log_cps_at(wl_head(*w), phase), { unimplemented!() }
 /// `checkpoint.entries.retain(|entry| !pathspecs.iter().any(|pathspec| entry.file == *pathspec || (pathspec.ends_with('/') && entry.file.starts_with(pathspec)) || entry.file.starts_with(&format!("{}/", pathspec))))`
@@ -385,6 +467,19 @@ proof fn theorem_failed_reset_changes_nothing(o: ResetOp)
     requires !o.ok || o.old is None || o.new is None || o.target is None,
     ensures !some_effect(o),
 { assert(decide(o) == Action::Nothing); }
+/// ANY effect on a working log
+pub open spec fn some_log_effect(o: ResetOp) -> bool {
+    ||| exists|sha: Seq<char>| may_drop(o, sha) || may_clear(o, sha)
+    ||| exists|sha: Seq<char>, placed: bool, files: Seq<String>| may_delete_old(o, sha, placed, files)
+    ||| some_write(o)
+    ||| exists|sha: Seq<char>, rw: bool| may_delete_temp(o, sha, rw)
+}
+/// un-staging (`git reset [HEAD] [--] <paths>`: the target is the old head itself) changes only the index: NO working log may be
+/// touched - the pending attribution of the named files stays (was finding 2, repaired in /repo 42fcdb81); only the event is logged
+proof fn theorem_unstage_touches_no_working_log(o: ResetOp)
+    requires o.ok, !o.hard, o.paths.len() > 0, o.old is Some, o.new is Some, o.target == o.old,
+    ensures !some_log_effect(o),
+{ assert(decide(o) == Action::Unstage); }
 /// C03 hard reset: the text is gone - the old head's pending attribution may be dropped, NOTHING may be written for any head, no
 /// other log may be touched
 proof fn theorem_hard_reset_only_drops_old(o: ResetOp)
@@ -405,7 +500,7 @@ proof fn theorem_not_backwards_writes_nothing(o: ResetOp)
 proof fn theorem_backwards_reset_carries(o: ResetOp, head: Seq<char>, w: (InitFiles, InitPrompts), cl: bool, cf: Seq<String>, fin: Map<Seq<char>, Seq<char>>, sha: Seq<char>, placed: bool, files: Seq<String>)
     requires decide(o) == Action::Carry,
     ensures
-        may_write_initial(o, head, w, cl, cf, fin) ==> Some(head) == o.target && Some(cf) == carry_files(o.old.unwrap(), o.target.unwrap(), None)
+        may_write_initial(o, head, w, cl, cf, fin) ==> Some(head) == o.target && carried_ok(cf, o.old.unwrap(), o.target.unwrap(), None)
             && merge_spec(old_va(o.old.unwrap(), cf, o.target.unwrap()), target_va(o.target.unwrap(), cf, o.target.unwrap()), fin) is Some
             && Some(w) == initial_of(merge_spec(old_va(o.old.unwrap(), cf, o.target.unwrap()), target_va(o.target.unwrap(), cf, o.target.unwrap()), fin).unwrap(), head, head, cf),
         may_delete_old(o, sha, placed, files) ==> Some(sha) == o.old && (placed || files.len() == 0) && pending_within(sha, files),
@@ -518,7 +613,7 @@ fn get_files_changed_between_commits(
 //#end
 
 // ---------------------------------------------------------------- the reconstruction
-//#item file=src/authorship/rebase_authorship.rs kind=fn name=reconstruct_working_log_after_reset opaque='[{"expr": "all_changed_files .into_iter() .filter(|f| { user_paths.iter().any(|p| { f == p || (p.ends_with(\u0027/\u0027) && f.starts_with(p)) || f.starts_with(&format!(\"{}/\", p)) }) }) .collect()", "call": "opq_filter_user(all_changed_files, user_paths)"}, {"expr": "repo.storage .delete_working_log_for_base_commit(old_head_sha)", "call": "opq_delete_old(repo, old_head_sha, Ghost(placed), Ghost(cf))"}, {"expr": "repo.clone()", "call": "opq_repo_clone(repo)"}, {"expr": "pathspecs.clone()", "call": "opq_clone_paths(&pathspecs)"}, {"expr": "smol::block_on(async { crate::authorship::virtual_attribution::VirtualAttributions::from_working_log_for_commit( repo_clone, old_head_clone, &pathspecs_clone, None, Some(target_commit_sha.to_string()), ) .await })", "call": "opq_va_old(repo_clone, old_head_clone, &pathspecs_clone, target_commit_sha)"}, {"expr": "smol::block_on(async { crate::authorship::virtual_attribution::VirtualAttributions::new_for_base_commit( repo_clone, target_clone, &pathspecs_clone, Some(target_commit_sha.to_string()), ) .await })", "call": "opq_va_target(repo_clone, target_clone, &pathspecs_clone, target_commit_sha)"}, {"expr": "HashMap<String, String>", "call": "FileMap"}, {"expr": "HashMap::new()", "call": "opq_map_new()"}, {"expr": "std::fs::read_to_string(&abs_path).unwrap_or_default()", "call": "opq_read_or_default(&abs_path)"}, {"expr": "String::new()", "call": "opq_new_string()"}, {"expr": "std::collections::HashSet<String>", "call": "StrSet"}, {"expr": "pathspecs.iter().cloned().collect()", "call": "opq_to_set(&pathspecs)"}, {"expr": "new_working_log .write_initial_attributions(initial_attributions.files, initial_attributions.prompts)", "call": "opq_write_initial(&new_working_log, initial_attributions.files, initial_attributions.prompts, Ghost(cleared), Ghost(cf), Ghost(fin))"}, {"expr": "& format ! ( \"Reconstructing working log after reset from {} to {}\" , old_head_sha , target_commit_sha )", "call": "opq_msg()"}, {"expr": "& format ! ( \"Processing {} files for reset authorship reconstruction\" , pathspecs . len ( ) )", "call": "opq_msg()"}, {"expr": "& format ! ( \"Built old_head VA with {} files, {} prompts\" , old_head_va . files ( ) . len ( ) , old_head_va . prompts ( ) . len ( ) )", "call": "opq_msg()"}, {"expr": "& format ! ( \"Built target VA with {} files, {} prompts\" , target_va . files ( ) . len ( ) , target_va . prompts ( ) . len ( ) )", "call": "opq_msg()"}, {"expr": "& format ! ( \"Read {} files from working directory\" , final_state . len ( ) )", "call": "opq_msg()"}, {"expr": "& format ! ( \"Merged VAs, result has {} files\" , merged_va . files ( ) . len ( ) )", "call": "opq_msg()"}, {"expr": "& format ! ( \"Generated INITIAL attributions for {} files, {} attestations, {} prompts\" , initial_attributions . files . len ( ) , authorship_log . attestations . len ( ) , authorship_log . metadata . prompts . len ( ) )", "call": "opq_msg()"}, {"expr": "& format ! ( \"\u2713 Wrote INITIAL attributions to working log for {}\" , target_commit_sha )", "call": "opq_msg()"}]'
+//#item file=src/authorship/rebase_authorship.rs kind=fn name=reconstruct_working_log_after_reset opaque='[{"expr": "old_working_log .read_initial_attributions() .files .into_keys() .collect()", "call": "opq_initial_files(&old_working_log)"}, {"expr": "old_working_log.read_all_checkpoints().unwrap_or_default()", "call": "opq_read_cps_at(&old_working_log, Ghost(0int))"}, {"expr": "pending_files.extend(checkpoint.entries.into_iter().map(|entry| entry.file))", "call": "opq_extend_entry_files(&mut pending_files, checkpoint.entries)"}, {"expr": "pending_files.sort()", "call": "opq_sort_names(&mut pending_files)"}, {"expr": "pathspecs.contains(&file)", "call": "opq_has_name(&pathspecs, &file)"}, {"expr": "all_changed_files .into_iter() .filter(|f| { user_paths.iter().any(|p| { f == p || (p.ends_with(\u0027/\u0027) && f.starts_with(p)) || f.starts_with(&format!(\"{}/\", p)) }) }) .collect()", "call": "opq_filter_user(all_changed_files, user_paths)"}, {"expr": "repo.storage .delete_working_log_for_base_commit(old_head_sha)", "call": "opq_delete_old(repo, old_head_sha, Ghost(placed), Ghost(cf))"}, {"expr": "repo.clone()", "call": "opq_repo_clone(repo)"}, {"expr": "pathspecs.clone()", "call": "opq_clone_paths(&pathspecs)"}, {"expr": "smol::block_on(async { crate::authorship::virtual_attribution::VirtualAttributions::from_working_log_for_commit( repo_clone, old_head_clone, &pathspecs_clone, None, Some(target_commit_sha.to_string()), ) .await })", "call": "opq_va_old(repo_clone, old_head_clone, &pathspecs_clone, target_commit_sha)"}, {"expr": "smol::block_on(async { crate::authorship::virtual_attribution::VirtualAttributions::new_for_base_commit( repo_clone, target_clone, &pathspecs_clone, Some(target_commit_sha.to_string()), ) .await })", "call": "opq_va_target(repo_clone, target_clone, &pathspecs_clone, target_commit_sha)"}, {"expr": "HashMap<String, String>", "call": "FileMap"}, {"expr": "HashMap::new()", "call": "opq_map_new()"}, {"expr": "std::fs::read_to_string(&abs_path).unwrap_or_default()", "call": "opq_read_or_default(&abs_path)"}, {"expr": "String::new()", "call": "opq_new_string()"}, {"expr": "std::collections::HashSet<String>", "call": "StrSet"}, {"expr": "pathspecs.iter().cloned().collect()", "call": "opq_to_set(&pathspecs)"}, {"expr": "new_working_log .write_initial_attributions(initial_attributions.files, initial_attributions.prompts)", "call": "opq_write_initial(&new_working_log, initial_attributions.files, initial_attributions.prompts, Ghost(cleared), Ghost(cf), Ghost(fin))"}, {"expr": "& format ! ( \"Reconstructing working log after reset from {} to {}\" , old_head_sha , target_commit_sha )", "call": "opq_msg()"}, {"expr": "& format ! ( \"Processing {} files for reset authorship reconstruction\" , pathspecs . len ( ) )", "call": "opq_msg()"}, {"expr": "& format ! ( \"Built old_head VA with {} files, {} prompts\" , old_head_va . files ( ) . len ( ) , old_head_va . prompts ( ) . len ( ) )", "call": "opq_msg()"}, {"expr": "& format ! ( \"Built target VA with {} files, {} prompts\" , target_va . files ( ) . len ( ) , target_va . prompts ( ) . len ( ) )", "call": "opq_msg()"}, {"expr": "& format ! ( \"Read {} files from working directory\" , final_state . len ( ) )", "call": "opq_msg()"}, {"expr": "& format ! ( \"Merged VAs, result has {} files\" , merged_va . files ( ) . len ( ) )", "call": "opq_msg()"}, {"expr": "& format ! ( \"Generated INITIAL attributions for {} files, {} attestations, {} prompts\" , initial_attributions . files . len ( ) , authorship_log . attestations . len ( ) , authorship_log . metadata . prompts . len ( ) )", "call": "opq_msg()"}, {"expr": "& format ! ( \"\u2713 Wrote INITIAL attributions to working log for {}\" , target_commit_sha )", "call": "opq_msg()"}]'
 pub fn reconstruct_working_log_after_reset(
     repo: &Repository,
     target_commit_sha: &str, // Where we reset TO
@@ -551,9 +646,47 @@ pub fn reconstruct_working_log_after_reset(
         None,
     )?;
     let commits_in_range = range.all_commits();
-    let pathspecs = filter_pathspecs_to_ai_touched_files(repo, &commits_in_range, &pathspecs)?;
-//@ let ghost cf = pathspecs@; let ghost mut placed = false; let ghost mut cleared = false;
-//@ proof { assert(Some(cf) == carry_files(old_head_sha@, target_commit_sha@, user_of(op()))); }
+    let mut pathspecs =
+        filter_pathspecs_to_ai_touched_files(repo, &commits_in_range, &pathspecs)?;
+//@ let ghost ai = pathspecs@; let ghost mut placed = false; let ghost mut cleared = false;
+//@ let ghost oldh = old_head_sha@; let ghost ncps = log_cps_at(oldh, 0).len() as int;
+//@ proof { assert(Some(ai) == carry_files(old_head_sha@, target_commit_sha@, user_of(op()))); }
+
+    // The old HEAD's working log is deleted below, so every file with pending (uncommitted)
+    // attribution in it has to be carried over as well, whether or not the unwound commits
+    // touched it. (For pathspec resets the caller keeps the rest of that log itself.)
+    if user_pathspecs.is_none() && repo.storage.has_working_log(old_head_sha) {
+        let old_working_log = repo.storage.working_log_for_base_commit(old_head_sha);
+        let mut pending_files: Vec<String> = opq_initial_files(&old_working_log);
+        //@ proof { assert(collects(pending_files@, oldh, 0)); }
+        for checkpoint in it_0: opq_read_cps_at(&old_working_log, Ghost(0int))
+        //@     invariant it_0.snapshot@.remaining() == log_cps_at(oldh, 0), collects(pending_files@, oldh, it_0.index@),
+        {
+            //@ let ghost k = it_0.index@; let ghost v0 = pending_files@;
+            //@ proof { assert(checkpoint == log_cps_at(oldh, 0)[k]); }
+            opq_extend_entry_files(&mut pending_files, checkpoint.entries);
+            //@ proof { lemma_collect_step(v0, pending_files@, oldh, k); }
+        }
+        opq_sort_names(&mut pending_files);
+        //@ let ghost pf = pending_files@;
+        //@ proof { assert(collects(pf, oldh, ncps)); }
+        for file in it_1: pending_files
+        //@     invariant
+        //@         it_1.snapshot@.remaining() == pf, collects(pf, oldh, ncps), ncps == log_cps_at(oldh, 0).len(),
+        //@         ext_ok(pathspecs@, ai, oldh), covered(pathspecs@, pf, it_1.index@),
+        {
+            //@ let ghost n = it_1.index@; let ghost cf0 = pathspecs@;
+            //@ proof { assert(file == pf[n]); assert(has_name(pf, pf[n]@)); assert(pending_has(oldh, pf[n]@)); }
+            if !opq_has_name(&pathspecs, &file) {
+                pathspecs.push(file);
+            }
+            //@ proof { lemma_cover_step(cf0, pathspecs@, ai, pf, n, oldh); }
+        }
+        //@ proof { lemma_cover_all(pathspecs@, pf, oldh); assert(ext_ok(pathspecs@, ai, oldh) && pending_within(oldh, pathspecs@)); }
+    }
+//@ let ghost cf = pathspecs@;
+//@ // C02 (was finding 1): every file with pending attribution in the old head's log is among the carried files - PROVED, no longer assumed
+//@ proof { assert(carried_ok(cf, oldh, target_commit_sha@, user_of(op()))); }
 
     if pathspecs.is_empty() {
         debug_log("No files changed between commits, nothing to reconstruct");
@@ -590,12 +723,12 @@ pub fn reconstruct_working_log_after_reset(
     let workdir = repo.workdir()?;
 //@ let ghost wd = workdir@;
 //@ proof { assert(is_wt(fm_view(final_state), wd, cf, 0)); }
-    for file_path in it_0: &pathspecs
+    for file_path in it_2: &pathspecs
 //@     invariant
-//@         cf == pathspecs@, it_0.snapshot@.remaining().len() == cf.len(), forall|k: int| 0 <= k < cf.len() ==> *(#[trigger] it_0.snapshot@.remaining()[k]) == cf[k],
-//@         workdir@ == wd, is_wt(fm_view(final_state), wd, cf, it_0.index@),
+//@         cf == pathspecs@, it_2.snapshot@.remaining().len() == cf.len(), forall|k: int| 0 <= k < cf.len() ==> *(#[trigger] it_2.snapshot@.remaining()[k]) == cf[k],
+//@         workdir@ == wd, is_wt(fm_view(final_state), wd, cf, it_2.index@),
     {
-//@ let ghost k = it_0.index@; let ghost m0 = fm_view(final_state);
+//@ let ghost k = it_2.index@; let ghost m0 = fm_view(final_state);
 //@ proof { assert(*file_path == cf[k]); }
         let abs_path = workdir.join(file_path);
         let content = if abs_path.exists() {
@@ -642,8 +775,8 @@ pub fn reconstruct_working_log_after_reset(
     if !initial_attributions.files.is_empty() {
         opq_write_initial(&new_working_log, initial_attributions.files, initial_attributions.prompts, Ghost(cleared), Ghost(cf), Ghost(fin))?;
     }
-
 //@ proof { placed = true; }
+
     // Delete old working log
     opq_delete_old(repo, old_head_sha, Ghost(placed), Ghost(cf))?;
 
@@ -675,7 +808,7 @@ fn handle_reset_preserve_working_dir(
     new_head_sha: &str,
     human_author: &str,
 )
-//@     requires decide(op()) == Action::Carry, op().old == Some(old_head_sha@), op().target == Some(target_commit_sha@), !dev_pending_outside(op()),
+//@     requires decide(op()) == Action::Carry, op().old == Some(old_head_sha@), op().target == Some(target_commit_sha@),
 {
     // Sanity check: new HEAD should equal target after reset
     if !opq_str_eq(new_head_sha, target_commit_sha) {
@@ -721,7 +854,7 @@ fn handle_reset_preserve_working_dir(
     }
 }
 //#end
-//#item file=src/commands/hooks/reset_hooks.rs kind=fn name=handle_reset_pathspec_preserve_working_dir opaque='[{"expr": "old_head_sha != new_head_sha", "call": "!opq_str_eq(old_head_sha, new_head_sha)"}, {"expr": "target_commit_sha != new_head_sha", "call": "!opq_str_eq(target_commit_sha, new_head_sha)"}, {"expr": "working_log.read_all_checkpoints().unwrap_or_default()", "call": "opq_read_cps_at(&working_log, Ghost(0int))"}, {"expr": "target_working_log .read_all_checkpoints() .unwrap_or_default()", "call": "opq_read_cps_at(&target_working_log, Ghost(1int))"}, {"expr": "checkpoint.entries.retain(|entry| { !pathspecs.iter().any(|pathspec| { entry.file == *pathspec || (pathspec.ends_with(\u0027/\u0027) && entry.file.starts_with(pathspec)) || entry.file.starts_with(&format!(\"{}/\", pathspec)) }) })", "call": "opq_retain_unselected(&mut checkpoint.entries, pathspecs)"}, {"expr": "merged_checkpoints.extend(pathspec_checkpoints)", "call": "opq_extend_cps(&mut merged_checkpoints, pathspec_checkpoints)"}, {"expr": "head_working_log.append_checkpoint(&checkpoint)", "call": "opq_append_cp(&head_working_log, &checkpoint, Ghost(kept_g), Ghost(appended))"}, {"expr": "repository .storage .delete_working_log_for_base_commit(target_commit_sha)", "call": "opq_delete_temp(repository, target_commit_sha, Ghost(rewritten))"}, {"expr": "& format ! ( \"Handling pathspec reset: old_head={}, target={}, pathspecs={:?}\" , old_head_sha , target_commit_sha , pathspecs )", "call": "opq_msg()"}, {"expr": "& format ! ( \"Warning: pathspec reset but HEAD moved from {} to {}\" , old_head_sha , new_head_sha )", "call": "opq_msg()"}, {"expr": "& format ! ( \"\u2713 Reconstructed working log for pathspec reset: {:?}\" , pathspecs )", "call": "opq_msg()"}, {"expr": "& format ! ( \"Failed to reconstruct working log for pathspec reset: {}\" , e )", "call": "opq_msg()"}, {"expr": "& format ! ( \"\u2713 Updated working log for pathspec reset: {} pathspec checkpoints, {} non-pathspec checkpoints preserved\" , pathspec_count , non_pathspec_count )", "call": "opq_msg()"}]'
+//#item file=src/commands/hooks/reset_hooks.rs kind=fn name=handle_reset_pathspec_preserve_working_dir opaque='[{"expr": "target_commit_sha == old_head_sha", "call": "opq_str_eq(target_commit_sha, old_head_sha)"}, {"expr": "old_head_sha != new_head_sha", "call": "!opq_str_eq(old_head_sha, new_head_sha)"}, {"expr": "target_commit_sha != new_head_sha", "call": "!opq_str_eq(target_commit_sha, new_head_sha)"}, {"expr": "working_log.read_all_checkpoints().unwrap_or_default()", "call": "opq_read_cps_at(&working_log, Ghost(0int))"}, {"expr": "target_working_log .read_all_checkpoints() .unwrap_or_default()", "call": "opq_read_cps_at(&target_working_log, Ghost(1int))"}, {"expr": "checkpoint.entries.retain(|entry| { !pathspecs.iter().any(|pathspec| { entry.file == *pathspec || (pathspec.ends_with(\u0027/\u0027) && entry.file.starts_with(pathspec)) || entry.file.starts_with(&format!(\"{}/\", pathspec)) }) })", "call": "opq_retain_unselected(&mut checkpoint.entries, pathspecs)"}, {"expr": "merged_checkpoints.extend(pathspec_checkpoints)", "call": "opq_extend_cps(&mut merged_checkpoints, pathspec_checkpoints)"}, {"expr": "head_working_log.append_checkpoint(&checkpoint)", "call": "opq_append_cp(&head_working_log, &checkpoint, Ghost(kept_g), Ghost(appended))"}, {"expr": "repository .storage .delete_working_log_for_base_commit(target_commit_sha)", "call": "opq_delete_temp(repository, target_commit_sha, Ghost(rewritten))"}, {"expr": "& format ! ( \"Handling pathspec reset: old_head={}, target={}, pathspecs={:?}\" , old_head_sha , target_commit_sha , pathspecs )", "call": "opq_msg()"}, {"expr": "& format ! ( \"Warning: pathspec reset but HEAD moved from {} to {}\" , old_head_sha , new_head_sha )", "call": "opq_msg()"}, {"expr": "& format ! ( \"\u2713 Reconstructed working log for pathspec reset: {:?}\" , pathspecs )", "call": "opq_msg()"}, {"expr": "& format ! ( \"Failed to reconstruct working log for pathspec reset: {}\" , e )", "call": "opq_msg()"}, {"expr": "& format ! ( \"\u2713 Updated working log for pathspec reset: {} pathspec checkpoints, {} non-pathspec checkpoints preserved\" , pathspec_count , non_pathspec_count )", "call": "opq_msg()"}]'
 fn handle_reset_pathspec_preserve_working_dir(
     repository: &Repository,
     old_head_sha: &str,
@@ -730,13 +863,22 @@ fn handle_reset_pathspec_preserve_working_dir(
     human_author: &str,
     pathspecs: &[String],
 )
-//@     requires decide(op()) == Action::CarryPaths, op().old == Some(old_head_sha@), op().target == Some(target_commit_sha@), op().new == Some(new_head_sha@), pathspecs@ == op().paths,
+//@     // a pathspec reset whose target is the old head (Unstage) has NO effect; the effect stubs below all demand CarryPaths
+//@     requires decide(op()) == Action::CarryPaths || decide(op()) == Action::Unstage, op().old == Some(old_head_sha@), op().target == Some(target_commit_sha@), op().new == Some(new_head_sha@), pathspecs@ == op().paths,
 {
     debug_log(opq_msg());
 
     // For pathspec resets, HEAD doesn't move
     if !opq_str_eq(old_head_sha, new_head_sha) {
         debug_log(opq_msg());
+    }
+
+    // Resetting paths to HEAD itself (`git reset -- <paths>`, `git reset HEAD <paths>`) only
+    // unstages them: neither the history nor the working tree changes, so the pending
+    // attribution of those files stays exactly as it is.
+    if opq_str_eq(target_commit_sha, old_head_sha) {
+        debug_log("Pathspec reset to HEAD only unstages, working log left untouched");
+        return;
     }
 
     // For pathspec resets, HEAD doesn't move, so we're reconstructing for the current HEAD
@@ -768,9 +910,9 @@ fn handle_reset_pathspec_preserve_working_dir(
         }
 //@ proof { lemma_kept_step(out0, non_pathspec_checkpoints@, ex, k, checkpoint, paths); }
     }
-
 //@ proof { assert(ex.take(ex.len() as int) =~= ex); }
 //@ let ghost kept_g = non_pathspec_checkpoints@;
+
     // Reconstruct working log for pathspec files only
     // Pass pathspecs to limit reconstruction to only those files
     match crate::authorship::rebase_authorship::reconstruct_working_log_after_reset(
@@ -816,10 +958,10 @@ fn handle_reset_pathspec_preserve_working_dir(
         let _ = opq_append_cp(&head_working_log, &checkpoint, Ghost(kept_g), Ghost(appended));
 //@ proof { appended = appended + 1; }
     }
-
 //@ // everything kept and everything the reconstruction left has been written back, in this order
 //@ assert(appended == kept_g.len() + pc.len());
 //@ proof { rewritten = true; }
+
     // Clean up the temporary working log for target_commit_sha (unless it's the same as HEAD)
     if !opq_str_eq(target_commit_sha, new_head_sha) {
         let _ = opq_delete_temp(repository, target_commit_sha, Ghost(rewritten));
@@ -836,7 +978,7 @@ pub fn post_reset_hook(
     repository: &mut Repository,
     exit_status: ExitStatusT,
 )
-//@     requires describes(*parsed_args, *old(repository), exit_status, op()), !dev_pending_outside(op()),
+//@     requires describes(*parsed_args, *old(repository), exit_status, op()),
 //@     // which handler runs is pinned by the handlers' preconditions; that nothing else happens by those of the effect stubs
 {
     if !exit_status.success() {
